@@ -30,13 +30,36 @@ def Outcome.connects : Outcome → Bool
   | .accept => true
   | _ => false
 
+/-- What kind of call the application issues. -/
+inductive CallKind
+  /-- an ordinary call: the peer, once reached, answers it -/
+  | plain
+  /-- a call whose effective deadline (`grpc-timeout` of the request, `Endpoint::timeout`) is
+  zero: it can be sent but never answered in time -/
+  | zeroDeadline
+  /-- a call that is still in flight (request delivered, response not yet complete) when the peer
+  drops the connection -/
+  | peerDies
+deriving DecidableEq, Repr
+
 /-- One step of a fault script, issued at a quiescent point. -/
 inductive Op
   /-- the application issues one call and waits for its result -/
   | call
   /-- the peer drops the established connection -/
   | die
+  /-- one call with a zero deadline -/
+  | callZero
+  /-- one call; the peer drops the connection while it is in flight -/
+  | callDie
 deriving DecidableEq, Repr
+
+/-- The kind of call an op issues (`none`: not a call). -/
+def Op.kind? : Op → Option CallKind
+  | .call => some .plain
+  | .callZero => some .zeroDeadline
+  | .callDie => some .peerDies
+  | .die => none
 
 /-- What the caller of one call sees. `attempt` is the connection attempt whose failure the
 error carries, when the error text identifies it. -/
@@ -46,6 +69,11 @@ inductive CallRes
   | hang
   | panic
   | garbled
+  /-- the call's own deadline expired (`TimeoutExpired`, CANCELLED) -/
+  | expired
+  /-- the call was in flight on connection `conn` when the peer dropped it: it ended with an
+  error that is not a connect error -/
+  | lost (conn : Nat)
 deriving DecidableEq, Repr
 
 /-- Building the channel (`connect_with_connector` / `connect_with_connector_lazy`). -/
